@@ -17,13 +17,30 @@ var faultOpts = RunOpts{Prop: "C07"}
 
 // faultFreeCount runs the history without faults and returns the number of
 // countable file calls and their kinds (index k-1 = kind of call k).
-func faultFreeCount(c Case) (v *Violation, n int, kinds []IOKind, ev map[string]int) {
+func faultFreeCount(c Case) (v *Violation, n int, kinds []IOKind, lens []int, ev map[string]int) {
 	plan := &FaultPlan{}
-	plan.OnCall = func(k IOKind) { kinds = append(kinds, k) }
+	plan.OnCall = func(k IOKind, l int) { kinds = append(kinds, k); lens = append(lens, l) }
 	opts := faultOpts
 	opts.Plan = plan
 	v, ev = Run(c, opts)
-	return v, plan.Calls, kinds, ev
+	return v, plan.Calls, kinds, lens, ev
+}
+
+// tornModes lists the torn variants for a failing write of n bytes: 0 = nothing
+// reaches the file; 1/2/3 = one byte / half / all but one; 10+j = exactly j
+// bytes.  The thorough tier tries every length of writes up to 64 bytes.
+func tornModes(n int, thorough bool) []int {
+	if thorough && n <= 64 {
+		ms := []int{0}
+		for j := 1; j < n; j++ {
+			ms = append(ms, 10+j)
+		}
+		return ms
+	}
+	if thorough {
+		return []int{0, 1, 2, 3, 10 + 15, 10 + 16, 10 + 17, 10 + n/3, 10 + 2*n/3}
+	}
+	return []int{0, 1, 2, 3}
 }
 
 // RunFault executes one faulted run described by c.Cfg.FailAt / c.Cfg.Torn.
